@@ -384,3 +384,46 @@ def rename(g, kind):
 
     S = f(g["S"])
     return dict(g, S=S, rules=[[w, f(h), [f(y) for y in b]] for w, h, b in g["rules"]])
+
+
+def sample_members(g, rng, k=6, min_len=5, max_len=12, tries=200):
+    """Random derivations of g (uniform rule choice, depth-limited): strings of the language, mostly longer
+    than the exhaustive bound.  Independent of the library."""
+    V = set(g["V"])
+    by = {}
+    for w, h, b in g["rules"]:
+        by.setdefault(h, []).append(tuple(b))
+    an = analyse(g)
+    gen = an["generating"]
+    out = set()
+    for _ in range(tries):
+        if len(out) >= k:
+            break
+        budget = [60]
+
+        def expand(X, depth):
+            if X in V:
+                return (X,)
+            budget[0] -= 1
+            if budget[0] < 0 or X not in by:
+                return None
+            opts = [b for b in by[X] if all(y in V or y in gen for y in b)]
+            if not opts:
+                return None
+            if depth > 6:
+                opts = sorted(opts, key=lambda b: sum(1 for y in b if y not in V))[:2]
+            b = rng.choice(opts)
+            res = ()
+            for y in b:
+                r = expand(y, depth + 1)
+                if r is None:
+                    return None
+                res += r
+                if len(res) > max_len:
+                    return None
+            return res
+
+        x = expand(g["S"], 0)
+        if x is not None and min_len <= len(x) <= max_len:
+            out.add(x)
+    return sorted(out)
